@@ -111,11 +111,16 @@ func (g *FnGen) unknownOf(name string, t types.Type) Val {
 
 func (g *FnGen) safety(sub string, goal, what string, pos token.Pos) {
 	// may-panic clauses weaken every safety goal
+	orig := goal
 	for _, mp := range g.fc.MayPanic {
 		env := g.entryEnv()
 		goal = fmt.Sprintf("(or %s %s)", env.trBool(mp.E), goal)
 	}
 	g.oblige("safety", g.ordName("safety/"+sub), goal, what, pos)
+	if len(g.fc.MayPanic) > 0 {
+		// execution continues past this point only when the operation did not panic
+		g.assumeHere(orig)
+	}
 }
 
 func (g *FnGen) instr(ins ssa.Instruction) {
